@@ -22,7 +22,7 @@ func init() {
 			"round trip: random subsets of stored nodes -> bits set by the harness at the node's list position -> Decode returns the subset. Non-trivial+distinct = hash of (mask, from, to) with a non-empty expected output, hash of (mask, bm) with a non-empty subset.",
 		Assumptions: []string{"mask >= 1; output kept small for big heights (the property's own restriction)", "bit k of bm for the k-th stored node in pre-order: the list position, not the library's PathToIndex (C03 ties the two together)"},
 		Flavours:    releaseAnd386,
-		Required: []string{"range/from-on-path", "range/from-between-paths", "range/to-on-path", "range/to-beyond-last", "range/from>to", "range/full", "range/empty-result", "range/high-half>=2^h",
+		Required: []string{"arguments-in-read-only-memory", "range/from-on-path", "range/from-between-paths", "range/to-on-path", "range/to-beyond-last", "range/from>to", "range/full", "range/empty-result", "range/high-half>=2^h",
 			"level/absent", "h>=20", "decode/bm-shorter", "decode/bm-longer", "decode/bm-empty", "decode/bits>=bitmapSize", "decode/roundtrip", "decode/all-ones", "decode/bm>=2^31-bits", "decode/height>=16"},
 		Families: func(c *mon.Config) []mon.Family {
 			hs := c.Pick(6, 9)
@@ -325,6 +325,12 @@ func c04Decode(w *mon.W, idx int) {
 	// the bitmap is a view of a larger array whose cells beyond len hold poison (a prefix of a bigger
 	// buffer, a pooled buffer cut back): words beyond len(bm) read as 0 whatever the memory holds
 	bm, guard := dirtyW(bm)
+	if idx%4 == 1 { // or lives in memory that cannot be written (ro.go)
+		if v, rel, ok := roOneW(w, orig); ok {
+			bm = v
+			defer rel()
+		}
+	}
 	if kind == 3 && idx&1 == 0 {
 		bm = nil
 	}
@@ -476,6 +482,43 @@ func c04DecodeTall(w *mon.W, idx int) {
 		return
 	}
 	w.Bucket("decode/height>=16")
+	// The same tree with bitmaps SHORTER than the tree (trailing empty words omitted; the statement reads missing words
+	// as zero): cut after a few words, in the middle, one word before the end. Round 10 seeded a helper pool that lost
+	// one slot per Decode of a short bitmap of a tall tree and blocked once the slots were used up, so each cut is
+	// decoded several times.
+	for _, cut := range []int{1, 1 + r.Intn(len(bm)), len(bm) / 2, len(bm) - 1} {
+		if cut < 0 || cut > len(bm) {
+			continue
+		}
+		var expS []uint64
+		for k, p := range list {
+			if chosen[k] && k < 64*cut {
+				expS = append(expS, p)
+			}
+		}
+		short, shortOK := dirtyW(bm[:cut])
+		if cut == len(bm)/2 {
+			if v, rel, ok := roOneW(w, bm[:cut]); ok {
+				short = v
+				defer rel()
+			}
+		}
+		for rep := 0; rep < 3; rep++ {
+			w.Op, w.A, w.B = "Decode(tall, short bitmap)", int64(mask), int64(cut)
+			gotS := bmtree.Decode(int32(mask), short)
+			w.Eval(1)
+			w.Tick()
+			if !eqWords(gotS, expS) {
+				w.Fail("Decode/tall-tree/short-bitmap", mon.D{"bitmapSize": fmt.Sprintf("%#b", mask), "height": h, "bitmap_words": cut, "tree_words": len(bm), "repetition": rep + 1, "got_n": len(gotS), "expected_n": len(expS)})
+				return
+			}
+		}
+		if !shortOK() {
+			w.Fail("Decode/wrote-outside-len-of-argument", mon.D{"bitmapSize": fmt.Sprintf("%#b", mask), "bitmap_words": cut})
+			return
+		}
+		w.Bucket("decode/tall-tree/short-bitmap")
+	}
 	w.Distinct(gen.Hash64(0x7a11, uint64(mask), uint64(len(exp))))
 	w.Sample(func() interface{} {
 		return mon.D{"bitmapSize": fmt.Sprintf("%#b", mask), "height": h, "encoded_nodes": len(exp)}
